@@ -28,6 +28,8 @@ import (
 	"tglib"
 )
 
+var nRecv int
+
 func nassecExact(b []byte) []byte {
 	c := make([]byte, len(b), len(b)) // capacity = length, never nil
 	copy(c, b)
@@ -90,7 +92,29 @@ func nassecStep(ue *tglib.RanUeContext, op map[string]interface{}) (out map[stri
 		ie.Id.Value = ngapType.ProtocolIEIDNASPDU
 		ie.Value.Present = ngapType.DownlinkNASTransportIEsPresentNASPDU
 		ie.Value.NASPDU = &ngapType.NASPDU{Value: aper.OctetString(pkt)}
-		dl.ProtocolIEs.List = append(dl.ProtocolIEs.List, ie)
+		nRecv++
+		if nRecv%3 == 0 {
+			// the IEs a real AMF sends around the NAS-PDU (TS 38.413 9.2.5.2): the UE ids before it, Old AMF (criticality
+			// reject) before and Allowed NSSAI (reject) after it
+			mk := func(id int64, pres int) ngapType.DownlinkNASTransportIEs {
+				x := ngapType.DownlinkNASTransportIEs{}
+				x.Id.Value = id
+				x.Value.Present = pres
+				return x
+			}
+			a := mk(ngapType.ProtocolIEIDAMFUENGAPID, ngapType.DownlinkNASTransportIEsPresentAMFUENGAPID)
+			a.Value.AMFUENGAPID = &ngapType.AMFUENGAPID{Value: 7}
+			r := mk(ngapType.ProtocolIEIDRANUENGAPID, ngapType.DownlinkNASTransportIEsPresentRANUENGAPID)
+			r.Value.RANUENGAPID = &ngapType.RANUENGAPID{Value: 1}
+			o := mk(ngapType.ProtocolIEIDOldAMF, ngapType.DownlinkNASTransportIEsPresentOldAMF)
+			o.Value.OldAMF = &ngapType.AMFName{Value: "amf-old"}
+			n := mk(ngapType.ProtocolIEIDAllowedNSSAI, ngapType.DownlinkNASTransportIEsPresentAllowedNSSAI)
+			n.Value.AllowedNSSAI = &ngapType.AllowedNSSAI{}
+			dl.ProtocolIEs.List = append([]ngapType.DownlinkNASTransportIEs{a, r, o}, dl.ProtocolIEs.List...)
+			dl.ProtocolIEs.List = append(dl.ProtocolIEs.List, ie, n)
+		} else {
+			dl.ProtocolIEs.List = append(dl.ProtocolIEs.List, ie)
+		}
 		m := tglib.GetNasPdu(ue, &dl)
 		if m == nil {
 			out["err"] = "tglib.GetNasPdu returned no message"
